@@ -63,6 +63,7 @@ var c07faults = []struct {
 	{"mount1(missing source)", forkexec.LocMount, 1, "pivot"},
 	{"mount2(missing source)", forkexec.LocMount, 2, "pivot"},
 	{"mkdir(file in the way)", forkexec.LocMountMkdir, 1, "pivot"},
+	{"mount3(planted link at the third component of its target)", forkexec.LocMountMkdir, 3, "pivot"},
 	{"pivot(root is a file)", forkexec.LocMountTmpfs, 0, "pivot"},
 	{"chdir(missing)", forkexec.LocChdir, 0, ""},
 	{"rlimit0(soft>hard)", forkexec.LocSetRlimit, 0, ""},
@@ -118,6 +119,13 @@ func c07build(cfg c07cfg, fault string, dir string) (*c07scene, error) {
 			b.Mounts[2].FsType = "nosuchfs" // third entry is the tmpfs: an unknown file-system type
 		case "mkdir(file in the way)":
 			b.Mounts[1].Target = "probe/sub/out" // parent "probe" is a read-only bind by then: mkdir fails
+		case "mount3(planted link at the third component of its target)":
+			// a fourth mount whose target runs through the writable bind "out", where a symbolic link sits at a/lnk: the
+			// refusal must name mount 3 (the position of the link inside the path is another number)
+			os.MkdirAll(filepath.Join(outDir, "a"), 0755)
+			os.Symlink(filepath.Join(dir, "elsewhere"), filepath.Join(outDir, "a", "lnk"))
+			os.Mkdir(filepath.Join(dir, "src3"), 0755)
+			b.WithBind(filepath.Join(dir, "src3"), "out/a/lnk/ref", true)
 		}
 		sp, err := b.Build()
 		if err != nil {
